@@ -59,6 +59,7 @@ class Cfg:
         self.far_length = True           # fields between a length field and its target
         self.inline_rich = True          # inline objects may hold references, match fields, MetaData-typed fields
         self.meta_pad_attr = True        # padding attributes on MetaData-typed fixed strings
+        self.length_any_target = False   # @lengthOf aimed at a string / scalar / fixed string / list / inline object (the visitor accepts any member)
         self.def_order = True            # top-level definitions in any order (MetaData / options after the packets using them)
         self.__dict__.update(kw)
 
@@ -197,7 +198,7 @@ def gen_program(rng, cfg=None):
                     used_len = True
                     lname = fnames[j]
                     j += 1
-                    fields.append({"kind": "length", "name": lname, "type": rng.choice(UNSIGNED), "alias": rng.random() < 0.3, "target": mname,
+                    fields.append({"kind": "length", "name": lname, "type": _len_type(rng), "alias": rng.random() < 0.3, "target": mname,
                                    "prefixed": rng.random() < 0.5, "doc": None})
                     if cfg.far_length and rng.random() < 0.3:
                         # something between the length field and its target
@@ -208,9 +209,9 @@ def gen_program(rng, cfg=None):
                 t = rng.choice(later)
                 named = rng.random() < 0.6 or any(x["name"] == t for x in fields) or t in fnames
                 rep = cfg.allow_repeat and rng.random() < 0.3
-                if cfg.allow_length and i == 0 and not used_len and not rep and rng.random() < 0.3:
+                if cfg.allow_length and i == 0 and not used_len and (not rep or cfg.length_any_target) and rng.random() < 0.3:
                     used_len = True
-                    fields.append({"kind": "length", "name": name, "type": rng.choice(UNSIGNED), "alias": rng.random() < 0.3,
+                    fields.append({"kind": "length", "name": name, "type": _len_type(rng), "alias": rng.random() < 0.3,
                                    "target": (fnames[j] if named else t), "prefixed": rng.random() < 0.5, "doc": None})
                     name = fnames[j]
                     j += 1
@@ -220,16 +221,38 @@ def gen_program(rng, cfg=None):
                 fields.append({"kind": "ref", "name": name if named else t, "packet": t, "named": named, "repeat": rep,
                                "doc": ("`%s ref doc`" % t) if rng.random() < 0.3 else None})
             elif cfg.allow_inline and r < 0.40:
+                if cfg.length_any_target and cfg.allow_length and i == 0 and not used_len and rng.random() < 0.3:
+                    used_len = True
+                    fields.append({"kind": "length", "name": name, "type": _len_type(rng), "alias": rng.random() < 0.3,
+                                   "target": None, "prefixed": rng.random() < 0.5, "doc": None})
+                    name = fnames[j]
+                    j += 1
                 fields.append(gen_inline(rng, cfg, name, cfg.inline_depth, later, metas))
+                if len(fields) > 1 and fields[-2]["kind"] == "length" and fields[-2]["target"] is None:
+                    fields[-2]["_tobj"] = fields[-1]
             elif cfg.allow_checksum and r < 0.47:
                 fields.append({"kind": "checksum", "name": name, "type": rng.choice(INTS if rng.random() < 0.3 else ["u32", "u16", "u8", "u64"]), "alias": rng.random() < 0.3,
                                "algo": rng.choice(['"CRC32"', '"SUM8"', '"XOR"', '"crc32"', '"Adler32"']), "prefixed": rng.random() < 0.5, "doc": None})
             else:
+                if cfg.length_any_target and cfg.allow_length and i == 0 and not used_len and rng.random() < 0.12:
+                    used_len = True
+                    fields.append({"kind": "length", "name": name, "type": _len_type(rng), "alias": rng.random() < 0.3,
+                                   "target": fnames[j], "prefixed": rng.random() < 0.5, "doc": None, "any_target": True})
+                    name = fnames[j]
+                    j += 1
                 f = gen_simple_field(rng, cfg, name, metas)
+                if f["kind"] == "metaref" and not f["named"]:
+                    f["named"] = True    # a length field names its target
                 if cfg.allow_tag and rng.random() < 0.1:
                     f["tag"] = rng.randint(1, 999)
+                if fields and fields[-1].get("any_target"):
+                    fields[-1]["_tobj"] = f
                 fields.append(f)
         _dedupe(fields)
+        for f in fields:
+            t = f.pop("_tobj", None)
+            if t is not None:     # the name the target ended up with
+                f["target"] = t["meta"] if (t["kind"] == "metaref" and not t["named"]) else t["name"]
         if cfg.typeless and metas:
             ints = [m for m in metas if m["kind"] == "scalar" and m["type"] in INTS and not m.get("repeat")]
             used = {field_name(x) for x in fields} | {x.get("meta") for x in fields if x["kind"] == "metaref" and not x.get("named")}
@@ -250,6 +273,11 @@ def gen_program(rng, cfg=None):
         # (MetaData, options, packets), so the order carries no meaning
         prog["def_order"] = rng.choice(["meta-last", "options-last", "reversed", rng.randrange(1 << 30)])
     return prog
+
+
+def _len_type(rng):
+    """a length field is usually unsigned; the grammar takes any type and signed integers are served by every target"""
+    return rng.choice(INTS) if rng.random() < 0.15 else rng.choice(UNSIGNED)
 
 
 def _dedupe(fields):
